@@ -1,11 +1,14 @@
 (* driver.ml — oracle for group "path": one case per line on stdin, one canonical result line per case.
    P <euid> <tg> <flags> <leaf_is_dir> <chain>         path_is_secure on the visited part of the chain
+   I <ids> <tg> <flags> <leaf_is_dir> <chain>          the same as a process with identity <ids> runs it
    A <chain>                                            path_is_accessible
-   M <fg> <umask-octal>                                 modes of the five created files
-   U <fg> <force> <euid> <tg> <umask-octal> key=<fobs> keydir=<chain> seed=<fobs> seeddir=<chain>
-     log=<fobs> logdir=<chain> sockdir=<chain> lock=<fstat|-> piddir=<chain>      the whole start-up
+   M <fg> <umask-octal>                                 modes of the five files created on a clean slate
+   U <fg> <force> <ids> <tg> <umask-octal> key=<fobs> keydir=<chain> seed=<fobs> seeddir=<chain>
+     log=<fobs> logdir=<chain> sock=<fobs> sockdir=<chain> lock=<fobs> pid=<fobs> piddir=<chain>
+                                                        the whole start-up
+   ids = ruid:euid:suid:rgid:egid:sgid
    chain = uid:gid:mode,...  (leaf first, octal modes; "-" = empty);  fstat = type:uid:gid:mode with type in
-   r d l f s c b;  fobs = <symlink 0|1>/<fstat|-> *)
+   r d l f s c b;  fobs = <symlink 0|1>/<fstat|-> : what lstat/stat report at a name = state of the entry *)
 open Model
 open Conv
 
@@ -24,25 +27,35 @@ let fstat s = if s = "-" then None else match split_on ':' s with
 let fobs s = match split_on '/' s with
   | [l; st] -> { o_symlink = (l = "1"); o_stat = fstat st }
   | _ -> failwith ("fobs " ^ s)
+let ident s = match split_on ':' s with
+  | [r; e; sv; rg; eg; sg] -> { i_ruid = n r; i_euid = n e; i_suid = n sv; i_rgid = n rg; i_egid = n eg; i_sgid = n sg }
+  | _ -> failwith ("ident " ^ s)
 let reason = function ROwner -> "O" | RGroupW -> "G" | RWorldW -> "W"
-let site = function SLog -> "log" | SSeed -> "seed" | SKey -> "key" | SSock -> "sock" | SLock -> "lock" | SPid -> "pid"
+let site = function SLog -> "log" | SSeed -> "seed" | SKey -> "key" | SSock -> "sock" | SLock -> "lock"
+                  | SBind -> "bind" | SPid -> "pid"
 let why = function
   | WMissing -> "missing" | WType -> "type" | WSymlink -> "symlink" | WOwner -> "owner" | WGroup -> "group"
   | WOther -> "other" | WDir (i, r) -> Printf.sprintf "dir:%d:%s" (int_of_nat i) (reason r)
   | WAccess i -> Printf.sprintf "access:%d" (int_of_nat i) | WLock -> "lockfile" | WHang -> "hang"
+  | WCreate -> "create" | WExists -> "exists"
 let kv key tok =
   let p = key ^ "=" in
   let lp = String.length p in
   if String.length tok >= lp && String.sub tok 0 lp = p then String.sub tok lp (String.length tok - lp)
   else failwith ("expected " ^ p ^ " in " ^ tok)
 let o3 x = Printf.sprintf "%03o" (int_of_n x)
+let tletter = function TReg -> "r" | TDir -> "d" | TLnk -> "l" | TFifo -> "f" | TSock -> "s" | TChr -> "c" | TBlk -> "b"
+let show_fstat s = Printf.sprintf "%s:%d:%d:%04o" (tletter s.f_type) (int_of_n s.f_uid) (int_of_n s.f_gid) (int_of_n s.f_mode)
+let show_fobs e = Printf.sprintf "%d/%s" (if e.o_symlink then 1 else 0)
+    (match e.o_stat with None -> "-" | Some s -> show_fstat s)
+let verdict = function
+  | Secure -> print_string "P 1\n"
+  | Insecure (i, r) -> Printf.printf "P 0 %d %s\n" (int_of_nat i) (reason r)
 
 let line l =
   match split_on ' ' l with
-  | ["P"; e; tg; fl; ld; ch] ->
-    (match path_is_secure (n e) (n tg) (n fl) (visited (ld = "1") (chain ch)) with
-     | Secure -> print_string "P 1\n"
-     | Insecure (i, r) -> Printf.printf "P 0 %d %s\n" (int_of_nat i) (reason r))
+  | ["P"; e; tg; fl; ld; ch] -> verdict (path_is_secure (n e) (n tg) (n fl) (visited (ld = "1") (chain ch)))
+  | ["I"; ids; tg; fl; ld; ch] -> verdict (path_secure_as (ident ids) (n tg) (n fl) (visited (ld = "1") (chain ch)))
   | ["A"; ch] ->
     (match path_is_accessible (chain ch) with
      | None -> print_string "A 1\n" | Some i -> Printf.printf "A 0 %d\n" (int_of_nat i))
@@ -51,22 +64,22 @@ let line l =
     Printf.printf "M sock=%s lock=%s pid=%s log=%s seed=%s\n" (o3 (created (sock_recipe fg) u))
       (o3 (created (lock_recipe fg) u)) (o3 (created (pid_recipe fg) u))
       (if fg then "-" else o3 (created log_recipe u)) (o3 (created (seed_recipe fg) u))
-  | ["U"; fg; force; e; tg; um; k; kd; s; sd; lg; ld; rd; lk; pd] ->
-    let c = { c_fg = (fg = "1"); c_force = (force = "1"); c_euid = n e; c_tg = n tg; c_umask = no um;
+  | ["U"; fg; force; ids; tg; um; k; kd; s; sd; lg; ld; so; rd; lk; pi; pd] ->
+    let c = { c_fg = (fg = "1"); c_force = (force = "1"); c_id = ident ids; c_tg = n tg; c_umask = no um;
               c_key = fobs (kv "key" k); c_keydir = chain (kv "keydir" kd);
               c_seed = fobs (kv "seed" s); c_seeddir = chain (kv "seeddir" sd);
               c_log = fobs (kv "log" lg); c_logdir = chain (kv "logdir" ld);
-              c_sockdir = chain (kv "sockdir" rd); c_lock = fstat (kv "lock" lk);
-              c_piddir = chain (kv "piddir" pd) } in
+              c_sock = fobs (kv "sock" so); c_sockdir = chain (kv "sockdir" rd); c_lock = fobs (kv "lock" lk);
+              c_pid = fobs (kv "pid" pi); c_piddir = chain (kv "piddir" pd) } in
     (match startup c with
-     | Some (_, WHang) -> print_string "U hung\n"
+     | Some (s, WHang) -> Printf.printf "U hung %s\n" (site s)
      | Some (s, w) -> Printf.printf "U refuse %s:%s\n" (site s) (why w)
      | None ->
-       let m = created_modes c and sr = seed_of c in
+       let a = after_start c and sr = seed_of c in
        Printf.printf "U start sock=%s lock=%s pid=%s log=%s seed=%s used=%d removed=%d\n"
-         (o3 m.m_sock) (o3 m.m_lock) (o3 m.m_pid)
-         (match m.m_log with None -> "-" | Some x -> o3 x)
-         (match seed_after c with None -> "-" | Some x -> o3 x)
+         (show_fobs a.a_sock) (show_fobs a.a_lock) (show_fobs a.a_pid)
+         (match a.a_log with None -> "-" | Some x -> show_fobs x)
+         (show_fobs (seed_after c))
          (if sr.sr_used then 1 else 0) (if sr.sr_removed then 1 else 0))
   | _ -> Printf.printf "? %s\n" l
 
